@@ -155,7 +155,7 @@ func c11Scenario(name string, clients []gridClient, srvBudget int) *explore.Scen
 
 func c11Scenarios(thorough bool) []*explore.Scenario {
 	if thorough {
-		return []*explore.Scenario{c11Scenario("grid-agreement", gridClients(4, true), 2)}
+		return []*explore.Scenario{c11Scenario("grid-agreement", gridClients(32, true), 3)}
 	}
 	return []*explore.Scenario{c11Scenario("grid-agreement", gridClients(2, false), 1)}
 }
